@@ -102,6 +102,8 @@ def plan_payload_forwarding(run, F):
     for fn in F.find('FullControlT', 'updatePlan'):
         if (fn.cls or '').rstrip('> ').endswith('void'):
             continue      # void payload specialisation
+        from lint import inline
+        fn = inline.inlined(F, E, fn)
         c = cfgmod.cfg_of(fn)
         decls = E.decls(fn)
         iters = [n for n in c.events(('decl',)) if (n.e.get('ty') or '').endswith('::Iterator') and 'PlanT<' in (n.e.get('ty') or '')]
